@@ -29,6 +29,12 @@ def net : P (Net Rat) := do
   let i ← space; let o ← space; let es ← many pe
   pure (peNet i o es)
 
+/-- the same network without derivative information (conditions whose residuals do not differentiate:
+    the symbolic second derivatives of a large program would be computed for every row for nothing) -/
+def netND : P (Net Rat) := do
+  let n ← net
+  pure { n with ders := fun _ => [] }
+
 def optNet : P (Option (Net Rat)) := do
   if (← nat) = 0 then pure none else pure (some (← net))
 
@@ -90,7 +96,7 @@ def step (line : String) : String :=
         let l ← smLoss c sp rows
         pure (l, rs, bound))
     | "data" => do
-      let sp ← space; let n ← net
+      let sp ← space; let n ← netND
       let g ← (do if (← nat) = 0 then pure none else pure (some (← ufun)) : P (Option (UFun Rat)))
       let nm ← next
       let norm ← (match nm with
@@ -113,7 +119,7 @@ def step (line : String) : String :=
     | "per" => do
       let psp ← space; let bsp ← space
       let rows ← many (do let a ← many rat; let b ← many rat; let c ← many rat; pure (a, b, c))
-      let n ← net; let res ← ufun; let ufs ← userFns; let preL ← preSets; let preR ← preSets
+      let n ← netND; let res ← ufun; let ufs ← userFns; let preL ← preSets; let preR ← preSets
       let ps ← named; let ek ← errKind; let rk ← redKind
       return showResult (do
         let ld ← setupDataFns (psp ++ bsp) preL ufs
@@ -129,7 +135,7 @@ def step (line : String) : String :=
         pure (l, rs, bound))
     | "don" => do
       let psp ← space; let xsp ← space; let prows ← table; let xrows ← table
-      let n ← net
+      let n ← netND
       let fso ← (do if (← nat) = 0 then pure none else do
                       let sp ← space; let g ← ufun; pure (some (sp, g)) : P (Option (SpaceL × UFun Rat)))
       let res ← ufun; let ufs ← userFns; let pre ← preSets; let ps ← named; let old ← bool
